@@ -18,7 +18,7 @@ CHECKS = {
     technique="TLA+ literal denotation (Text!Denote) + TLC-generated spellings replayed into the real parser + TLC trace validation"),
  "C09": dict(
     category="model_checking",
-    text="TLC enumerates Gen_Layout (12 statement templates squared x leading blank lines x indentation x trailing comment x two statements on a line x base/included file; 20736 layouts, quick tier runs every 8th) and computes every statement/operand span from string lengths; the real lexer, parser and full lint pipeline run on each layout and TLC validates every reported location (tokens, nodes, operand tokens, parse errors, CFG errors, lint diagnostics) against Text!PosOf of the named file and against the generated spans; repository and corpus programs are validated for consistency as recorded traces. Also: every operand form of jalr and escapes in character literals among the templates (20 templates), corpus programs cut into two files at every line in both orders, and injected-violation programs with their functions moved into an included file (lints that relate two places then relate two files).",
+    text="TLC enumerates Gen_Layout (12 statement templates squared x leading blank lines x indentation x trailing comment x two statements on a line x base/included file; 20736 layouts, quick tier runs every 8th) and computes every statement/operand span from string lengths; the real lexer, parser and full lint pipeline run on each layout and TLC validates every reported location (tokens, nodes, operand tokens, parse errors, CFG errors, lint diagnostics) against Text!PosOf of the named file and against the generated spans; repository and corpus programs are validated for consistency as recorded traces. The instruction nodes of the finished graph must stand, in order, at the places of the parsed statements (a pass that replaces a node keeps its place). Also: every operand form of jalr and escapes in character literals among the templates (20 templates), corpus programs cut into two files at every line in both orders, and injected-violation programs with their functions moved into an included file (lints that relate two places then relate two files).",
     design_ref="DESIGN.md §5 C09",
     note="Trusted: TLC, Text.tla position function, harness projection. Inclusive range ends; label range includes the colon; CRLF handled under C07.",
     technique="TLA+ position function (Text!PosOf) + TLC-generated layouts replayed into lexer/parser/lints + TLC trace validation of every reported location"),
